@@ -599,6 +599,7 @@ pub struct Tower {
 }
 
 pub struct AsyncCall {
+    pub tid: Option<std::thread::ThreadId>,
     pub rx: std::sync::mpsc::Receiver<(Value, Option<Monitor>, std::thread::ThreadId)>,
     pub fields: Value,
     pub kind: &'static str,
@@ -1135,7 +1136,10 @@ impl Rig {
         let scale = self.cfg.scale;
         let (tx, rx) = std::sync::mpsc::channel();
         let size = blob.len();
+        let (idtx, idrx) = std::sync::mpsc::channel();
         std::thread::spawn(move || {
+            crate::simnode::inflight_enter();
+            let _ = idtx.send(std::thread::current().id());
             let rt = tokio::runtime::Builder::new_current_thread().enable_all().build().unwrap();
             let r = catch_unwind(AssertUnwindSafe(|| {
                 rt.block_on(async {
@@ -1158,13 +1162,16 @@ impl Rig {
                 Ok(v) => v,
                 Err(_) => json!({"code": "abort"}),
             };
+            crate::simnode::inflight_exit();
             let _ = tx.send((v, None, std::thread::current().id()));
         });
+        let tid = idrx.recv().ok();
         self.rec.lock().unwrap().frozen = true;
         self.rec.lock().unwrap().emit_plain(json!({"act": "Note", "what": "spawn", "thread": name, "op": "add"}));
         self.calls.insert(
             name.to_string(),
             AsyncCall {
+                tid,
                 rx,
                 kind: "add",
                 fields: json!({"act": "Add", "who": who, "u": u, "cls": "valid", "l": l, "key": key, "pay": pay, "size": size, "tsd": tsd, "ver": ver}),
@@ -1193,18 +1200,23 @@ impl Rig {
         let mut monitor = self.tower.as_mut().expect("tower not booted").monitor.take().expect("chain monitor busy");
         let (tx, rx) = std::sync::mpsc::channel();
         // the observing listeners read memory through the hooks: they run on the polling thread itself, which is fine
+        let (idtx, idrx) = std::sync::mpsc::channel();
         std::thread::spawn(move || {
+            crate::simnode::inflight_enter();
+            let _ = idtx.send(std::thread::current().id());
             let rt = tokio::runtime::Builder::new_current_thread().enable_all().build().unwrap();
             let r = catch_unwind(AssertUnwindSafe(|| {
                 rt.block_on(monitor.poll_best_tip());
             }));
+            crate::simnode::inflight_exit();
             let _ = tx.send((json!({"ok": r.is_ok()}), Some(monitor), std::thread::current().id()));
         });
+        let tid = idrx.recv().ok();
         self.rec.lock().unwrap().frozen = true;
         self.rec.lock().unwrap().emit_plain(json!({"act": "Note", "what": "spawn", "thread": name, "op": "poll"}));
         self.calls.insert(
             name.to_string(),
-            AsyncCall { rx, kind: "poll", fields: json!({"act": "PollEnd", "res": res, "tip": tip, "node_tip": node_tip.to_string()}) },
+            AsyncCall { tid, rx, kind: "poll", fields: json!({"act": "PollEnd", "res": res, "tip": tip, "node_tip": node_tip.to_string()}) },
         );
     }
 
@@ -1231,6 +1243,10 @@ impl Rig {
             Some(c) => c,
             None => return true,
         };
+        // the call may have been held at a node RPC since the node came back: it goes on now
+        if let Some(t) = call.tid {
+            crate::simnode::release(t);
+        }
         match call.rx.recv_timeout(std::time::Duration::from_millis(timeout_ms)) {
             Ok((v, monitor, tid)) => {
                 if self.calls.is_empty() {
@@ -1279,6 +1295,7 @@ impl Rig {
             std::mem::forget(t);
         }
         self.calls.clear();
+        crate::simnode::release_all();
         let mut rec = self.rec.lock().unwrap();
         rec.comps = None;
         rec.frozen = false;
